@@ -104,7 +104,7 @@ def run_mount(ctx, tier):
     res = tlc.run_tlc(wd, "MC_Mount", dump=True, heap="6g")
     ctx.add_tlc("Mount", res, {"tables": len(tabs), "paths": len(K["Paths"]), "roots": 2})
     if res.violated:
-        raise common.MachineryError("Mount.tla violates %s:\n%s" % (res.violated, res.stdout[-1500:]))
+        raise common.MachineryError("Mount.tla: " + tlc.describe(res))
     tlc.check_coverage(res, ["Descend", "NotFound", "Arrive"])
     g = graph.Graph.load(res.dot)
     apps = {}
